@@ -99,6 +99,14 @@ func (c *stackClass_[V]) MakeWithCapacity(capacity uint) StackLike[V] {
 
 func (c *stackClass_[V]) MakeFromArray(values []V) StackLike[V] {
 	var list = List[V](c.notation_).MakeFromArray(values)
+	if uint(list.GetSize()) > c.defaultCapacity_ {
+		// The initial values must fit within the capacity of the stack.
+		return &stack_[V]{
+			class_:    c,
+			capacity_: uint(list.GetSize()),
+			values_:   list,
+		}
+	}
 	return &stack_[V]{
 		class_:    c,
 		capacity_: c.defaultCapacity_,
@@ -108,6 +116,14 @@ func (c *stackClass_[V]) MakeFromArray(values []V) StackLike[V] {
 
 func (c *stackClass_[V]) MakeFromSequence(values Sequential[V]) StackLike[V] {
 	var list = List[V](c.notation_).MakeFromSequence(values)
+	if uint(list.GetSize()) > c.defaultCapacity_ {
+		// The initial values must fit within the capacity of the stack.
+		return &stack_[V]{
+			class_:    c,
+			capacity_: uint(list.GetSize()),
+			values_:   list,
+		}
+	}
 	return &stack_[V]{
 		class_:    c,
 		capacity_: c.defaultCapacity_,
